@@ -57,7 +57,7 @@ def model(kind, fp_start):
     return ModelSpec(f"model{kind}", ops, nodes, edges, note=f"history model {kind}")
 
 
-STEP_KINDS = ['compile', 'compile_keep', 'compile_inplace', 'compile_inplace_edge_values', 'compile_inplace_noclear', 'compile_decorated', 'run', 'run_noclear', 'run_inplace',
+STEP_KINDS = ['compile', 'compile_with_input', 'compile_keep', 'compile_inplace', 'compile_inplace_edge_values', 'compile_inplace_noclear', 'compile_decorated', 'run', 'run_noclear', 'run_inplace',
               'jac', 'clear', 'clear_frontend', 'update_var', 'yaml']
 
 
@@ -66,6 +66,14 @@ def _halving(f, **kw):
     def g(*a):
         return 0.5 * np.asarray(f(*a))
     return g
+
+
+def first_input(spec):
+    for n, ns in spec.nodes.items():
+        for o in ns.ops:
+            for v, (kind, _) in spec.ops[o].vars.items():
+                if kind == 'input':
+                    return f"{n}/{o}/{v}"
 
 
 def first_state(spec):
@@ -110,6 +118,9 @@ def job_fn(job):
                                                     for a in c.args]), dtype=float, copy=True)
                             snap = [np.array(a, copy=True) if isinstance(a, np.ndarray) else a for a in c.args]
                             kept.append((m, c, val, snap))
+                    elif act == 'compile_with_input':
+                        ct.get_run_func('vf', step_size=0.25, vectorize=v, verbose=False, float_precision='float64',
+                                        in_place=False, file_name='pyrates_run', inputs={first_input(specs[m]): np.ones(3)})
                     elif act == 'compile_inplace':
                         # in-place translation followed by clear(): the template object stays usable
                         ct.get_run_func('vf', step_size=0.25, vectorize=v, verbose=False, float_precision='float64',
@@ -177,6 +188,25 @@ def job_fn(job):
             if node not in spec.nodes:
                 out['violations'].append(dict(kind='state-map-name', what=f"target after history: state map names the "
                                               f"variable {k}; no node {node} was declared (names leak from earlier models)"))
+        # ---- argument names of a translation with an extrinsic input: the generated input node is named after its target
+        # variable only (no counter left over from earlier models)
+        if any(a == 'compile_with_input' for _, a, _ in hist) and not out['violations']:
+            try:
+                c_in = tv.compile_template(build_python(spec), vectorize=vec, in_place=False,
+                                           inputs={first_input(spec): np.ones(3)})
+                import re as _re
+                bad = [k for k in c_in.keys if any(_re.search(r"_num\d+$", part) for part in str(k).split('/'))]
+                tally.obligations += 1
+                if bad:
+                    tally.sat += 1
+                    out['violations'].append(dict(kind='argument-name', what=f"target after history: arguments of a translation "
+                                                  f"with an extrinsic input are named {bad[:2]}; as first model of the process "
+                                                  f"they carry no counter (names leak from earlier models)"))
+                else:
+                    tally.unsat += 1
+            except tv.CompileError as e:
+                out['violations'].append(dict(kind='compile-raises', what=f"after the history the target model with an "
+                                              f"extrinsic input cannot be compiled: {str(e)[:300]}"))
         # ---- the reused template object must also still simulate: function handed to the integrator by run() -------
         if job.get('reuse') and not out['violations']:
             try:
@@ -293,7 +323,7 @@ def _opcache_job(job):
 def histories(tier, seed):
     rnd = random.Random(seed)
     H = []
-    acts = ['compile', 'compile_keep', 'compile_inplace', 'compile_inplace_noclear', 'compile_decorated', 'run', 'run_noclear', 'run_inplace', 'jac',
+    acts = ['compile', 'compile_with_input', 'compile_keep', 'compile_inplace', 'compile_inplace_noclear', 'compile_decorated', 'run', 'run_noclear', 'run_inplace', 'jac',
             'clear', 'clear_frontend', 'update_var', 'yaml']
     # hand-picked short histories named in the property
     for dec in 'ABCD':
@@ -301,6 +331,9 @@ def histories(tier, seed):
             for v in (True, False):
                 H.append([(dec, act, v)])
     H.append([('B', 'compile_keep', True), ('C', 'compile_keep', True)])
+    for dec in 'AC':
+        for v in (True, False):
+            H.append([(dec, 'compile_with_input', v)])
     H.append([('A', 'run_noclear', True), ('A', 'run_noclear', True)])
     H.append([('A', 'compile', True), ('A', 'clear', True), ('B', 'compile', True)])
     H.append([('B', 'run_inplace', True), ('A', 'clear_frontend', True)])
